@@ -486,6 +486,9 @@ def make_libs():
         'decimal': __import__('decimal'),
         'tempfile': TempfileModel,
         'pandas': PandasModel,
+        'cftime': __import__('pyvc.lib.timelib', fromlist=['x']).CftimeModule,
+        'pytz': __import__('pyvc.lib.timelib', fromlist=['x']).PytzModule,
+        'netCDF4': __import__('pyvc.lib.timelib', fromlist=['x']).Netcdf4Module,
         'pkgutil': Dummy('pkgutil'),
         'os': os,
         're': __import__('pyvc.lib.regex', fromlist=['ReModule']).ReModule,
